@@ -40,12 +40,19 @@ CONSUMER = "sleap_nn.inference.predictors:Predictor._predict_generator"
 
 def _is_buffer_call(call: ast.Call, meth: str) -> bool:
     f = call.func
-    return (
-        isinstance(f, ast.Attribute)
-        and f.attr == meth
-        and isinstance(f.value, ast.Attribute)
-        and f.value.attr == "frame_buffer"
-    )
+    if not (isinstance(f, ast.Attribute) and f.attr == meth):
+        return False
+    if isinstance(f.value, ast.Attribute) and f.value.attr == "frame_buffer":
+        return True
+    if isinstance(f.value, ast.Name):
+        # a local alias of the buffer:  buf = self.pipeline.frame_buffer
+        fn = call
+        while fn is not None and not isinstance(fn, (ast.FunctionDef, ast.AsyncFunctionDef)):
+            fn = getattr(fn, "_parent", None)
+        if fn is not None:
+            b = astq.assignments_to(fn, f.value.id)
+            return len(b) == 1 and isinstance(b[0], ast.Assign) and isinstance(b[0].value, ast.Attribute) and b[0].value.attr == "frame_buffer"
+    return False
 
 
 def _payload_dict(fn: ast.AST, arg: ast.AST) -> Optional[ast.Dict]:
@@ -353,6 +360,13 @@ def check_consumer(prog: Program, res: Result) -> None:
     res.ob("C13-own", n_start == 1, CONSUMER, "single start site in the program",
            f"{n_start} call sites start the reader thread", fi.where)
 
+    # the consumer waits for frames only inside get(): a loop that polls the fill level of the buffer (qsize / full / empty)
+    # waits for a level the reader may never reach - a queue of capacity c never holds batch_size > c frames, while the reader
+    # sits blocked in put() and stays alive
+    polls = [w_ for w_ in walk_function(fn) if isinstance(w_, ast.While) and any(isinstance(c_, ast.Call) and any(_is_buffer_call(c_, m_) for m_ in ("qsize", "full", "empty")) for c_ in ast.walk(w_.test))]
+    res.ob("C13-cons", not polls, fi.qualname, "no polling loop on the buffer's fill level",
+           f"`while {short(polls[0].test, 70) if polls else ''}` waits on the fill level of the frame buffer: with queue_maxsize below the level waited for, the reader blocks in put(), "
+           "the level is never reached and inference hangs", f"{fi.module.relpath}:{polls[0].lineno if polls else fi.node.lineno}")
     # sentinel test
     tests = []
     for n in ast.walk(inner):
